@@ -32,4 +32,5 @@ Init == \/ \E ver \in VerSet, pop \in SUBSET MCSecs, kf \in KfChoices : InitWith
 Next == Step
 
 ASSUME SizesAgree
+ASSUME PathsReachTarget
 =============================================================================
